@@ -177,3 +177,80 @@ def replay_e2e(obj, pred):
         return not ok
     finally:
         shutil.rmtree(tmp, ignore_errors=True)
+
+
+def proj_dump(x):
+    """the part of the public-API dump the pass-engine model also yields: glyph ids, association, attachment parent / first child"""
+    d = segspec.parse_dump(x)
+    if d is None:
+        return x.split()[0] if x else "empty"
+    return ("n=%d walk=%d " % (d["n"], d["walk"]) + " ".join("s:%d,%d,%d,%d,%d,%d" % (s["gid"], s["before"], s["after"], s["original"], s["parent"], s["child"])
+                                                            for s in d["slots"])).strip()
+
+
+def shape_stage(ctx, res, nfonts, ntexts, as_failure=False, gen_kw=None):
+    """whole-pipeline correspondence: synthesised left-to-right fonts shaped by the real engine (public API) and by the
+    Lean pass-engine model (grdriver shape); glyph ids, associations and attachments must be identical"""
+    import re
+    r = lib.rng("shape")
+    exe = lib.build_harness("h_seg")
+    tmp = lib.CACHE / ("shape-%d" % os.getpid())
+    tmp.mkdir(parents=True, exist_ok=True)
+    try:
+        fonts, lines, mlines = [], [], []
+        for i in range(nfonts):
+            data, desc = fontsynth.gen_font(r, dirn=0, **(gen_kw or {}))
+            p = tmp / ("f%d.ttf" % i)
+            p.write_bytes(data)
+            fonts.append(str(p))
+            for _ in range(ntexts):
+                t = fontsynth.gen_text(r)
+                hx = "".join("%08x" % c for c in t) or "-"
+                lines.append("F0=%d,0,f;S0=0,-1,-1,0,32,0,-1,%s;D0" % (i, hx))
+                mlines.append("shape %s text=%s" % (desc["model"], hx))
+        impl = lib.run_lines([exe] + fonts, lines, per_chunk=100)
+        model = lib.run_lines([lib.driver_path(), "shape"], mlines, per_chunk=100) if ctx.model_ok else [None] * len(lines)
+        res.harness.append("h_seg vs grdriver shape")
+        res.rules.append("shape: %d synthesised left-to-right fonts (1..3 passes, 1..5 rules per pass over 2|3|9 overlapping glyph columns, uniform pre-context 0..2, rule length 1..3, constraints on glyph attributes, actions next/insert/delete/put_copy/assoc/attach/attr_set/put_glyph) x %d texts of 0..12 characters" % (nfonts, ntexts))
+        for l, ml, i, m in zip(lines, mlines, impl, model):
+            res.evaluations += 1
+            res.distinct.add(ml)
+            pi = proj_dump(i)
+            if i.startswith(("CRASH", "fault")):
+                res.failures.append({"harness": "h_seg", "mode": "shape", "line": ml, "impl": i[:300], "model": m, "why": "crash / sanitizer fault in gr_make_seg on a synthesised font", "tag": "fault"})
+                continue
+            if m is None:
+                continue
+            mm = re.match(r"trie=(\S*) (.*)", m)
+            tb, mbody = (mm.group(1), mm.group(2).strip()) if mm else ("?", m)
+            res.count("shape:tables-encode-patterns=" + ("yes" if tb and set(tb) == {"1"} else "no:" + tb))
+            res.count("shape:" + ("noseg" if pi == "noseg" else "segment"))
+            if pi != mbody:
+                rec = {"harness": "h_seg", "mode": "shape", "line": ml, "impl": pi[:600], "model": mbody[:600], "exe_args": [],
+                       "font_hex": open(fonts[int(l.split("=")[1].split(",")[0])], "rb").read().hex(), "api_line": l,
+                       "why": "the engine's glyph stream differs from the reference semantics of the pass-engine model"}
+                if as_failure:
+                    res.failures.append(rec)
+                else:
+                    res.disagreements.append(dict(rec, explained_by_failure=False))
+        res.samples.append({"in": mlines[0][:300], "impl": proj_dump(impl[0])[:300], "model": (model[0] or "")[:300]})
+    finally:
+        shutil.rmtree(tmp, ignore_errors=True)
+
+
+def replay_shape(obj):
+    exe = lib.build_harness("h_seg")
+    tmp = lib.CACHE / ("replay-%d" % os.getpid())
+    tmp.mkdir(parents=True, exist_ok=True)
+    try:
+        p = tmp / "f.ttf"
+        p.write_bytes(bytes.fromhex(obj["font_hex"]))
+        ops = obj["api_line"].split(";")
+        ops[0] = "F0=0," + ops[0].split(",", 1)[1]
+        out = proj_dump(lib.run_lines([exe, str(p)], [";".join(ops)])[0])
+        m = lib.run_lines([lib.driver_path(), "shape"], [obj["line"]])[0]
+        m = m.split(" ", 1)[1].strip() if m.startswith("trie=") else m
+        print("model line: %s\nimpl : %s\nmodel: %s\nsame: %s" % (obj["line"][:400], out[:500], m[:500], out == m))
+        return out != m
+    finally:
+        shutil.rmtree(tmp, ignore_errors=True)
